@@ -444,6 +444,8 @@ pub const F32_LATTICE: &[(&str, u32)] = &[
     ("one-plus-ulp", 0x3F80_0001),
     ("one-minus-ulp", 0x3F7F_FFFF),
     ("epsilon", 0x3400_0000),
+    ("neg-half-pi", 0xBFC9_0FDB),
+    ("third-pi", 0x3F86_0A92),
 ];
 pub const F64_LATTICE: &[(&str, u64)] = &[
     ("zero", 0x0000_0000_0000_0000),
@@ -472,8 +474,10 @@ pub const F64_LATTICE: &[(&str, u64)] = &[
     ("one-plus-ulp", 0x3FF0_0000_0000_0001),
     ("one-minus-ulp", 0x3FEF_FFFF_FFFF_FFFF),
     ("epsilon", 0x3CB0_0000_0000_0000),
+    ("neg-half-pi", 0xBFF9_21FB_5444_2D18),
+    ("third-pi", 0x3FF0_C152_382D_7366),
 ];
-pub const NUM_F_LATTICE: usize = 26;
+pub const NUM_F_LATTICE: usize = 28;
 
 /// How a scalar is drawn.
 #[derive(Clone, Copy, Debug, PartialEq, Eq)]
